@@ -1,5 +1,5 @@
 """C12 -- work-unit lifecycle: exit, cancel, auto-free and revive follow the state machine."""
-from vr import Obl
+from vr import Obl, deepen
 import importlib
 
 META = {
@@ -27,6 +27,7 @@ def obligations(tier):
     o += [x for x in C11.obligations(tier) if x.name in ("directed_self_suspend_to", "directed_self_exit_to", "directed_self_resume_exit_to")]
     C02 = importlib.import_module("props.C02")
     o += [x for x in C02.obligations(tier) if x.name.startswith("callback_suspend")]
+    o += deepen([x for x in o if x.hooks], tier)
     return o
 
 MANIFEST_ENTRY = {
